@@ -226,6 +226,7 @@ func (e *Engine) cmdCheck(prop, tier, evid, known, replayDir string, replay bool
 	case "C20":
 		all = append(all, e.structuralObligations("isDuplicate")...)
 	}
+	all = append(all, e.wirefmtObligations(prop)...)
 	// lemmas: those tagged with the property and those cited by the functions under contract
 	lemmaSet := map[string]bool{}
 	for _, l := range e.cs.Lemmas {
